@@ -53,7 +53,11 @@ pub(super) fn existing_log_files(
             ));
         }
     } else {
-        result.push(file_spec.as_pathbuf(None));
+        // without rotation there is only one log file
+        let path = file_spec.as_pathbuf(None);
+        if selector.with_plain_files && path.is_file() {
+            result.push(path);
+        }
     }
     Ok(result)
 }
